@@ -274,6 +274,47 @@ func (a *A) ruleStrategyOutcome(fn *ssa.Function, checkNoDropWithoutTimeout bool
 		}
 		return ""
 	}
+	// helpers of package stream that enqueue, count or observe Stop on the strategy's behalf are
+	// summarised by the same walk: one continuation per (events, boolean results) they can end with
+	var walkOutcomes func(f *ssa.Function, mode string) []Outcome
+	sumMemo := map[*ssa.Function][]CallSummary{}
+	sumBusy := map[*ssa.Function]bool{}
+	summarise := func(c *ssa.Call) []CallSummary {
+		f := c.Call.StaticCallee()
+		if f == nil || f.Blocks == nil || f.Pkg != fn.Pkg || sumBusy[f] {
+			return nil
+		}
+		if v, ok := sumMemo[f]; ok {
+			return v
+		}
+		sumBusy[f] = true
+		var out []CallSummary
+		seen := map[string]bool{}
+		any := false
+		for _, o := range walkOutcomes(f, "any") {
+			if o.Ended == "overflow" {
+				out, any = nil, false
+				break
+			}
+			if o.Ended != "return" {
+				continue
+			}
+			if o.Tag != "" {
+				any = true
+			}
+			k := o.Tag + fmt.Sprint(o.Rets)
+			if !seen[k] {
+				seen[k] = true
+				out = append(out, CallSummary{Tag: o.Tag, Rets: o.Rets})
+			}
+		}
+		sumBusy[f] = false
+		if !any {
+			out = nil // no event inside: an ordinary call
+		}
+		sumMemo[f] = out
+		return out
+	}
 	// edge events: computed when entering a block through the true/false edge of an If
 	edgeEvent := func(iff *ssa.If, taken bool) string {
 		v := iff.Cond
@@ -288,9 +329,7 @@ func (a *A) ruleStrategyOutcome(fn *ssa.Function, checkNoDropWithoutTimeout bool
 		}
 		switch x := v.(type) {
 		case *ssa.Call:
-			if cal := x.Call.StaticCallee(); cal != nil && cal.Name() == "safeSendToDataChan" && sense {
-				return "S"
-			}
+			_ = sense // helpers (safeSendToDataChan, ...) are summarised at the call, see summarise
 		case *ssa.BinOp:
 			if x.Op == token.EQL || x.Op == token.NEQ {
 				eq := (x.Op == token.EQL) == sense
@@ -326,10 +365,7 @@ func (a *A) ruleStrategyOutcome(fn *ssa.Function, checkNoDropWithoutTimeout bool
 		}
 		return ""
 	}
-	for _, mode := range []string{"any", "no-timeout"} {
-		if mode == "no-timeout" && !checkNoDropWithoutTimeout {
-			continue
-		}
+	walkOutcomes = func(fn *ssa.Function, mode string) []Outcome {
 		env := &Env{a: a, Rank: map[string]int{}, Flags: map[string]bool{}, Assume: func(t *Term, v ssa.Value) Tri {
 			if mode == "no-timeout" {
 				if bo, ok := v.(*ssa.BinOp); ok && bo.Op == token.LEQ && isFieldOf(TermOf(bo.X, nil), "stream.Stream", "blockingTimeout") {
@@ -340,6 +376,8 @@ func (a *A) ruleStrategyOutcome(fn *ssa.Function, checkNoDropWithoutTimeout bool
 		}}
 		w := NewWalker(env, nil)
 		w.RetIdx = -1
+		w.AllRets = true
+		w.CallFork = summarise
 		w.Visits = 2
 		w.Target = func(in ssa.Instruction, w *Walker) bool {
 			if in == in.Block().Instrs[0] {
@@ -358,7 +396,13 @@ func (a *A) ruleStrategyOutcome(fn *ssa.Function, checkNoDropWithoutTimeout bool
 			}
 			return false
 		}
-		outs := w.Run(fn.Blocks[0], nil)
+		return w.Run(fn.Blocks[0], nil)
+	}
+	for _, mode := range []string{"any", "no-timeout"} {
+		if mode == "no-timeout" && !checkNoDropWithoutTimeout {
+			continue
+		}
+		outs := walkOutcomes(fn, mode)
 		seen := map[string]bool{}
 		bad := ""
 		for _, o := range outs {
@@ -370,21 +414,18 @@ func (a *A) ruleStrategyOutcome(fn *ssa.Function, checkNoDropWithoutTimeout bool
 				continue
 			}
 			seen[o.Tag] = true
-			if len(o.Tag) != 1 {
-				// tolerated: stop observed several times on a retry path is still one outcome class
-				uniq := map[rune]bool{}
-				for _, r := range o.Tag {
-					uniq[r] = true
-				}
-				if len(o.Tag) == 0 {
-					bad = "a path returns without enqueuing the row, counting it as dropped or having observed Stop: the row vanishes uncounted"
-				} else if strings.Count(o.Tag, "S") > 1 {
-					bad = "a path enqueues the row twice"
-				} else if strings.Contains(o.Tag, "S") && strings.Contains(o.Tag, "D") {
-					bad = "a path both enqueues the row and counts it as dropped"
-				} else if len(uniq) > 1 && !(len(uniq) == 2 && uniq['X'] && uniq['D']) {
-					bad = "a path has outcomes " + o.Tag
-				}
+			// X (Stop observed / no channel) is an observation, S and D are outcomes: exactly one outcome,
+			// or none and Stop observed
+			nS, nD := strings.Count(o.Tag, "S"), strings.Count(o.Tag, "D")
+			switch {
+			case len(o.Tag) == 0:
+				bad = "a path returns without enqueuing the row, counting it as dropped or having observed Stop: the row vanishes uncounted"
+			case nS > 1:
+				bad = "a path enqueues the row twice"
+			case nS > 0 && nD > 0:
+				bad = "a path both enqueues the row and counts it as dropped"
+			case nD > 1:
+				bad = "a path counts the row as dropped twice"
 			}
 			if mode == "no-timeout" && strings.Contains(o.Tag, "D") {
 				bad = "with blockingTimeout <= 0 a path increments input_dropped_count: the block strategy without timeout must never drop"
